@@ -64,6 +64,14 @@ Theorem import_keeps_exporter_alive : forall (ops : list op) (id : nat) (n : nod
 Proof. exact keeps_alive_l. Qed.
 Print Assumptions import_keeps_exporter_alive.
 
+(* The memory an exported structure hands out (and the structure an imported region depends on) is never
+   changed by any operation while that structure / region is alive. *)
+Theorem exported_memory_immutable : forall (ops : list op) (p : op) (id : nat) (n : node) (r : nat),
+  nth_error (nodes (run ops init)) id = Some n -> In r (node_refs n) ->
+  reg_bytes (step (run ops init) p) r = reg_bytes (run ops init) r.
+Proof. exact node_held_immutable. Qed.
+Print Assumptions exported_memory_immutable.
+
 (* Export then import of an Int32 array without validity (any slice of any region) yields an array that
    shows the same values; arrays with validity and Boolean arrays are covered by the correspondence run only. *)
 Theorem export_import_roundtrip_partial : forall (s : state) (c : bool) (v : handle),
